@@ -140,6 +140,8 @@ def _report(mod, prop, ctx, total, errors, wall, nunits):
     cov.setdefault('exhaustive', bool(exhaustive))
     cov['units'] = nunits
     cov['counters'] = {k: int(v) for k, v in sorted(total.c.items())}
+    if total.mx:
+        cov['gauges'] = {k: int(v) for k, v in sorted(total.mx.items())}
     if total.flags:
         cov['non_exhaustive_because'] = {k: int(v) for k, v in sorted(total.flags.items())}
     if total.notes:
